@@ -61,6 +61,10 @@ CHECKS = {
    technique="exhaustive DFS over operation sequences of the real VirtIONetRaw and VirtIONet against a reference network device that validates transmit chains and injects frames into any posted buffer; posted/held buffer accounting after every step",
    text="All sequences up to the stated depth of sends, receives, recycles of any held buffer, non-blocking transmit/receive with any device completion order, receive_wait with the frame delivered during the wait, and device deliveries of 0/1/1514-byte or buffer-filling frames into any posted buffer, for both drivers, with and without VERSION_1: transmit chain = zeroed 10/12-byte header + exact payload; received bytes and packet length = what the device wrote minus the header; posted + completed + held = queue size at every step; can_recv/poll_receive agree with the reference ring.",
    note="Trusts the reference network device (lab/src/c16.rs)."),
+ "C17": dict(level="model_checking", design="DESIGN.md §4 C17",
+   technique="exhaustive DFS over interleavings of local operations and peer packets on the real VsockConnectionManager against a reference peer tracking both credit windows and both byte streams; byte counters preset near 2^32 through a cfg hook; checked and release profiles",
+   text="Every interleaving up to the stated depth of send/recv of several sizes, update_credit, poll and peer RW / CREDIT_UPDATE (consume, shrink, grow) / CREDIT_REQUEST packets, for per-connection capacities 1, 3 and 4 and counter presets that wrap inside the window: every transmitted header must carry correct addressing, length, type, buf_alloc = capacity and fwd_cnt = bytes read (mod 2^32); a send is accepted exactly when it fits the peer's last advertised free space and otherwise refused with exactly one outstanding credit request; bytes read equal bytes the peer sent, in order.",
+   note="Trusts the reference peer (lab/src/c17.rs) written from virtio spec 5.10.6.3; peer honours the advertised credit."),
 }
 
 NOT_YET = "check not built yet in this round (machinery under construction; see DESIGN.md)"
